@@ -12,6 +12,7 @@ def dispatch (line : String) : String :=
   | "gen" :: rest => Driver.Gen.run rest
   | "read" :: rest => Driver.Read.run rest
   | "frame" :: rest => Driver.Frame.run rest
+  | "build" :: rest => Driver.Read.runBuild rest
   | ["case", _] => "case"
   | _ => "bad-op"
 
